@@ -108,11 +108,15 @@ def n11_h(name, bounds, **kw):
     kw.setdefault('summaries', ('nut10',))
     kw.setdefault('crypto_mode', 'euf')
     return Harness(name, 'cashu/nuts/nut11', N11_FILES, models=('std', 'crypto', 'json'), bounds=bounds, **kw)
+NUT10 = Harness('VHarnessNut10Deserialize', 'cashu/nuts/nut10', ['cashu/nuts/nut10/zz_verif_nut10.go'], models=('std', 'crypto', 'json'), panic_mode='obligation',
+                 bounds='real DeserializeSecret / SerializeSecret on ["kind", {nonce, data, tags}] with kind P2PK / HTLC / other, arbitrary nonce and data strings, 0..2 tags of 0..2 arbitrary strings: conformance with the injective-constructor summary the other harnesses use',
+                 must_reach=('deserialised',))
 def c12(tier):
     hs = [n11_h('VHarnessP2PKSound', 'lock: n_sigs 0..3, 0..1 co-signers, 0..1 refund keys, locktime absent/past/future (symbolic), sigflag any; witness: JSON with 0..3 signatures (garbage / by any lock key or a foreign key / right or wrong message / two nonces) or garbage text',
                 must_reach=('accepted', 'rejected')),
           n11_h('VHarnessP2PKComplete', 'canonical witness of AddSignatureToInputs for every lock with n_sigs <= 1, 0..2 co-signers, 0..1 refund keys, any locktime', must_reach=('canonical-accepted',)),
           n11_h('VHarnessSigAllPosition', '1..3 inputs, each plain / SIG_INPUTS / SIG_ALL', must_reach=('checked',))]
+    hs.append(NUT10)
     hs.append(mint_h('VHarnessSigAllSwapP2PK', 'mint swap/melt with a SIG_ALL P2PK input (n_sigs <= 1, <= 1 co-signer), optionally behind a plain input; outputs signed by the helper / unsigned / signed by a foreign key', summaries=('h2c', 'nut10'), must_reach=('helpers-accepted', 'unsigned-rejected', 'mixed-rejected')))
     if tier == 'thorough':
         hs.append(n11_h('VHarnessP2PKSoundWide', 'as VHarnessP2PKSound with n_sigs 0..3, 0..2 co-signers, 0..2 refund keys, 0..3 signatures', must_reach=('accepted', 'rejected'), timeout_s=3000))
@@ -124,6 +128,7 @@ def n14_h(name, bounds, **kw):
 def c13(tier):
     hs = [n14_h('VHarnessHTLCSound', 'HTLC: hash well-formed/short/garbage, preimage right/other/non-hex/empty; lock n_sigs 0..2, 0..1 listed keys, 0..1 refund keys, any locktime; 0..2 signatures', must_reach=('accepted', 'rejected')),
           n14_h('VHarnessHTLCComplete', 'canonical witness of AddWitnessHTLC for every lock with n_sigs <= 1, 0..2 listed keys, before the locktime', must_reach=('canonical-accepted',))]
+    hs.append(NUT10)
     hs.append(mint_h('VHarnessSigAllSwapHTLC', 'mint swap/melt with a SIG_ALL HTLC input (n_sigs = 1, 1 listed key), optionally behind a plain input; outputs carry the helper witness / none / a foreign signature', summaries=('h2c', 'nut10'), must_reach=('helpers-accepted', 'unsigned-rejected', 'mixed-rejected')))
     if tier == 'thorough':
         hs.append(n14_h('VHarnessHTLCSoundWide', 'as VHarnessHTLCSound with n_sigs 0..2, 0..2 keys, 0..2 refund keys, 0..2 signatures', must_reach=('accepted', 'rejected'), timeout_s=3000))
